@@ -104,6 +104,13 @@ Definition one (l : list site) (fn field op : string) (occ : nat) : option order
 Definition two (l : list site) (fn field op : string) (occ : nat) : option (ordering * ordering) :=
   match find_site l boxcar_file fn field op occ with Some [x; y] => Some (x, y) | _ => None end.
 
+(* a site that orderings_ok (below) does not constrain: when the table has no row for the key (the access was removed
+   from the source - e.g. the debug_assert of Iter::next - or the value is obtained some other way) it is read as d;
+   a row of the wrong arity is still an error.  Used with d = Relaxed, the weakest ordering: the machine then gives
+   that step no synchronisation, which over-approximates whatever the source does instead *)
+Definition one_or (l : list site) (fn field op : string) (occ : nat) (d : ordering) : option ordering :=
+  match find_site l boxcar_file fn field op occ with Some [x] => Some x | None => Some d | Some _ => None end.
+
 Definition obind {A B} (x : option A) (f : A -> option B) : option B :=
   match x with Some a => f a | None => None end.
 Notation "'do' x <- a ; b" := (obind a (fun x => b)) (at level 200, x name, a at level 100, b at level 200).
@@ -121,12 +128,12 @@ Definition ords_of_sites (l : list site) : option ords :=
    do get_act <- one l "get" "active" "load" 1;
    do unc_ptr <- one l "get_unchecked" "entries" "load" 1;
    do unc_act <- one l "get_unchecked" "active" "load" 1;
-   do next_infl <- one l "next" "inflight" "load" 1;
+   do next_infl <- one_or l "next" "inflight" "load" 1 Relaxed;
    do next_ptr <- one l "next" "entries" "load" 1;
    do next_act <- one l "next" "active" "load" 1;
-   do count_infl <- one l "count" "inflight" "load" 1;
-   do snap_infl <- one l "snapshot" "inflight" "load" 1;
-   do psnap_infl <- one l "par_snapshot" "inflight" "load" 1;
+   do count_infl <- one_or l "count" "inflight" "load" 1 Relaxed;
+   do snap_infl <- one_or l "snapshot" "inflight" "load" 1 Relaxed;
+   do psnap_infl <- one_or l "par_snapshot" "inflight" "load" 1 Relaxed;
    Some (mkOrds push_faa push_ptr push_store ext_faa ext_ptr1 ext_ptr2 ext_store (fst cas) (snd cas)
            get_ptr get_act unc_ptr unc_act next_infl next_ptr next_act count_infl snap_infl psnap_infl))%string.
 
